@@ -3,6 +3,7 @@ package main
 import (
 	"fmt"
 	"go/types"
+	"strings"
 
 	"golang.org/x/tools/go/ssa"
 )
@@ -20,6 +21,10 @@ func runC10(c *Ctx) {
 	c10Discard(c)
 	c10Pool(c)
 	c10FreshMessage(c)
+	// what is written for a datagram is serialised into storage of its own (the funnel, shared with C01)
+	c01Funnel(c)
+	ruleDatagramBuffer(c, "extent")
+	c10ResultAfterError(c, "discard", "ParseMessage")
 }
 
 func c10Extent(c *Ctx) {
@@ -418,4 +423,66 @@ func c10FreshMessage(c *Ctx) {
 		}
 	}
 	c.check(good, rule, "NewMessage/own-storage", w.pos(f.Pos()), "a new message owns its header list and body", "NewMessage does not give each message storage of its own ("+why+"): messages decoded from different datagrams share header slots, so what is relayed for one datagram contains headers of another")
+}
+
+// c10ResultAfterError: a decision is taken on the value result of a fallible package call only where its error has
+// been excluded: `line, err := readLine(r); if len(line) == 0 {...}; if err != nil {...}` takes an EOF in the middle of
+// the header section (nil line, non-nil error) for the empty line that ends it, so a truncated datagram is accepted
+// instead of discarded.
+func c10ResultAfterError(c *Ctx, rule string, fns ...string) {
+	w := c.w
+	n := 0
+	for _, name := range fns {
+		f := c.fn(rule, name)
+		if f == nil {
+			continue
+		}
+		per := map[string]int{}
+		for _, cs := range w.callsIn(f) {
+			call, ok := cs.In.(*ssa.Call)
+			callee := cs.In.Common().StaticCallee()
+			if !ok || callee == nil || !w.isMain(callee) || errIndex(call) < 0 || callee.Signature.Results().Len() != 2 {
+				continue
+			}
+			val := extractOf(call, 0)
+			if val == nil {
+				continue
+			}
+			switch val.Type().Underlying().(type) {
+			case *types.Slice, *types.Basic:
+			default:
+				continue
+			}
+			for _, b := range f.Blocks {
+				if len(b.Instrs) == 0 {
+					continue
+				}
+				ifi, ok := b.Instrs[len(b.Instrs)-1].(*ssa.If)
+				if !ok {
+					continue
+				}
+				a := w.atom(ifi.Cond)
+				x := a.X
+				if x == nil {
+					continue
+				}
+				if inner, isLen := lenOf(x); isLen {
+					x = inner
+				}
+				if cv, isCv := strip(x).(*ssa.Convert); isCv {
+					x = cv.X
+				}
+				if !isResultOf(x, call, 0) {
+					continue
+				}
+				n++
+				per[cs.Name]++
+				c.check(w.requires(f, ifi, errNil(call), true), rule, fmt.Sprintf("%s/%s-result-tested-after-error-check#%d", name, cs.Name, per[cs.Name]), w.ipos(ifi), "the value is examined only when the call succeeded",
+					"a decision is taken on the value returned by "+cs.Name+" before its error is checked: a failed read (EOF in the middle of the header section yields an empty line together with an error) is taken for a valid value, so an incomplete message is accepted instead of being discarded")
+			}
+		}
+	}
+	if n == 0 {
+		c.undecided(rule, "result-tested-after-error-check/floor", "-", "no decision on the result of a fallible call found in "+strings.Join(fns, ", "))
+	}
 }
